@@ -91,6 +91,12 @@ CLAIMS = {
             "(other key, other IDs and single-bit modifications must fail); CRL lookup must report a serial exactly when it is listed.",
             "Trusted: TLC, the driver's record of the supplied fields. Field values are seeded class representatives.",
             "4/C15"),
+    "C16": ("model_checking",
+            "TLC model checking of Cms.tla + trace validation of cms_* calls against CmsTrace.tla",
+            "Messages are produced by the top-level cms_* interfaces for 1..4 signers x 1..4 recipients x content classes and two content types; every recipient opens with a key object built from the raw scalar, ECPrivateKey DER and encrypted PKCS#8 PEM; "
+            "outsiders, mismatched keys, zero SignerInfos (message rewritten with an independent DER writer), a SignerInfo made with a foreign key and located bit flips of content / signature / encrypted key / IV / ciphertext must fail.",
+            "Trusted: TLC, ref/derw.py region location, ref/sm4ref.py (classifies which CBC changes keep the padding intact: those are the recorded known finding for unauthenticated Enveloped/EncryptedData).",
+            "4/C16"),
     "C18": ("fault_enumeration",
             "TLC model checking of Entropy.tla + link-time getentropy interposition with a failure injected at every draw index, validated against EntropyTrace.tla",
             "Every randomised API operation and the three handshakes in both roles are run clean, on an equal and a different entropy stream, repeated within one stream, and with the source failing at each draw index; "
